@@ -49,6 +49,7 @@ type atx struct {
 	Value int64  `json:"value"`
 	Limit int64  `json:"limit"`
 	Ts    int64  `json:"ts"`
+	Size  int    `json:"size"` // length in units of the byte limit (sizeUnit bytes each)
 }
 
 type step struct {
@@ -58,7 +59,7 @@ type step struct {
 	Res    string `json:"res"`
 	Bt     int64  `json:"bt"`
 	Max    int    `json:"max"`
-	Small  bool   `json:"small"`
+	Bytes  int    `json:"bytes"` // byte limit of the block in units (0: the default limit)
 	Sel    []atx  `json:"sel"`
 	Txs    []atx  `json:"txs"`
 	Pool   []int  `json:"pool"`
@@ -70,6 +71,8 @@ type params struct {
 	MinStep int64 `json:"MinStep"`
 	InitBal int64 `json:"InitBal"`
 	MaxPool int   `json:"MaxPool"`
+	Rich    []string `json:"Rich"`    // accounts that start with InitBal (nil: all of them)
+	PoorBal int64    `json:"PoorBal"` // balance of the others
 }
 
 type conc struct {
@@ -256,7 +259,16 @@ func (r *run) setup() error {
 		w := wallet.New()
 		r.wallets[a] = w
 		d.addrs[a] = w.Address()
-		d.balances[a] = new(big.Int).Mul(big.NewInt(r.in.Params.InitBal), r.unit())
+		bal := r.in.Params.InitBal
+		if r.in.Params.Rich != nil {
+			bal = r.in.Params.PoorBal
+			for _, x := range r.in.Params.Rich {
+				if x == a {
+					bal = r.in.Params.InitBal
+				}
+			}
+		}
+		d.balances[a] = new(big.Int).Mul(big.NewInt(bal), r.unit())
 	}
 	setupMu.Lock()
 	setups[r.c.Salt] = d
@@ -304,14 +316,62 @@ func (r *run) setup() error {
 }
 
 // build makes the real signed v3 transfer for an abstract transaction (once per n).
+// sizeUnit: every transaction is padded with a message so that len(tx.Bytes()) is exactly size * sizeUnit
+const sizeUnit = 2000
+
 func (r *run) build(a atx) (transaction.Transaction, error) {
 	if tx, ok := r.txs[a.N]; ok {
 		return tx, nil
 	}
+	size := a.Size
+	if size <= 0 {
+		size = 1
+	}
+	target := size * sizeUnit
+	// the encoded length grows by a fixed amount per message byte, plus a little where a length prefix grows: correct the
+	// padding until the length is exact; a wider nonce shifts everything if a prefix jump sits exactly on the target
+	for _, wide := range []int64{0, 0x1000, 0x100000, 0x10000000, 0x1000000000, 0x100000000000} {
+		t0, err := r.buildPadded(a, 0, wide)
+		if err != nil {
+			return nil, err
+		}
+		t1, err := r.buildPadded(a, 16, wide)
+		if err != nil {
+			return nil, err
+		}
+		l0, per := len(t0.Bytes()), (len(t1.Bytes())-len(t0.Bytes()))/16
+		if per < 1 || l0 > target {
+			return nil, fmt.Errorf("transaction cannot be padded to its size class (%d bytes unpadded, %d per message byte, class %d)", l0, per, target)
+		}
+		pad := (target - l0) / per
+		for try := 0; try < 6 && pad >= 0; try++ {
+			tx, err := r.buildPadded(a, pad, wide)
+			if err != nil {
+				return nil, err
+			}
+			l := len(tx.Bytes())
+			if l == target {
+				r.txs[a.N] = tx
+				return tx, nil
+			}
+			d := (target - l) / per
+			if d == 0 {
+				break
+			}
+			pad += d
+		}
+	}
+	return nil, fmt.Errorf("cannot pad the transaction to %d bytes", target)
+}
+
+// buildPadded makes the real signed v3 transfer for an abstract transaction with a message of pad bytes.
+func (r *run) buildPadded(a atx, pad int, wideNonce int64) (transaction.Transaction, error) {
+	nonce := int64(a.N) + r.c.Salt%1000 + wideNonce
 	value := new(big.Int).Mul(big.NewInt(a.Value), r.unit())
-	js := fmt.Sprintf(`{"version":"0x3","from":"%s","to":"%s","value":"0x%x","stepLimit":"0x%x","timestamp":"0x%x","nid":"0x%x","nonce":"0x%x"`,
+	js := fmt.Sprintf(`{"version":"0x3","from":"%s","to":"%s","value":"0x%x","stepLimit":"0x%x","timestamp":"0x%x","nid":"0x%x","nonce":"0x%x",`+
+		`"dataType":"message","data":"0x%s"`,
 		r.wallets[a.From].Address().String(), r.wallets[a.To].Address().String(), value, a.Limit*r.c.L, a.Ts*r.c.Delta,
-		r.e.nctx.C.NID(), int64(a.N)+r.c.Salt%1000000)
+		r.e.nctx.C.NID(), nonce, strings.Repeat("5a", pad))
 	unsigned, err := transaction.NewTransactionFromJSON([]byte(js + "}"))
 	if err != nil {
 		return nil, err
@@ -330,7 +390,6 @@ func (r *run) build(a atx) (transaction.Transaction, error) {
 	if err := tx.Verify(); err != nil {
 		return nil, fmt.Errorf("built transaction does not verify: %v", err)
 	}
-	r.txs[a.N] = tx
 	return tx, nil
 }
 
@@ -497,10 +556,7 @@ func (r *run) exec() (v verdict) {
 				v.div("step %d: %v", i, err)
 				return
 			}
-			maxBytes := 0 // the default limit
-			if s.Small {
-				maxBytes = 1 // below the size of any transaction
-			}
+			maxBytes := s.Bytes * sizeUnit // 0: the default limit
 			txs, _ := r.pool.Candidate(wc, maxBytes, s.Max)
 			var got, want []int
 			for _, tx := range txs {
